@@ -371,10 +371,9 @@ namespace plan
           viol("P6", "P6.enum_not_exactly_one_value", "enum variable " + v.name + " does not have exactly one value in the reported solution");
         continue;
       }
-      std::vector<std::string> vals = m.enums[v.en].vals;
-      if (m.enums[v.en].includes >= 0)
-        for (auto &x : m.enums[m.enums[v.en].includes].vals)
-          vals.push_back(x);
+      std::vector<std::string> vals;
+      for (auto &x : m.enum_values(v.en))
+        vals.push_back(x.second);
       if (std::find(vals.begin(), vals.end(), si->get_value()) == vals.end())
         viol("P6", "P6.enum_value_outside_domain", "enum variable " + v.name + " takes \"" + si->get_value() + "\"");
     }
@@ -437,10 +436,9 @@ namespace plan
     {
       if (m.mentioned.count(v.name))
         continue;
-      std::set<std::string> expect(m.enums[v.en].vals.begin(), m.enums[v.en].vals.end()), got;
-      if (m.enums[v.en].includes >= 0)
-        for (auto &x : m.enums[m.enums[v.en].includes].vals)
-          expect.insert(x);
+      std::set<std::string> expect, got;
+      for (auto &x : m.enum_values(v.en))
+        expect.insert(x.second);
       ratio::item *it = resolve(top, none, {v.name});
       if (!it)
         continue;
@@ -490,7 +488,21 @@ namespace plan
           on_rr[tau].push_back(t);
       }
       else
-        on_sv[tau].push_back(t);
+      { // only instances of (subclasses of) StateVariable exclude overlaps; a predicate of a plain class has a tau as well
+        bool is_sv = false;
+        std::vector<const ratio::type *> q{&tau->get_type()};
+        while (!q.empty())
+        {
+          const ratio::type *ty = q.back();
+          q.pop_back();
+          if (ty->get_name() == "StateVariable")
+            is_sv = true;
+          for (auto *st : ty->get_supertypes())
+            q.push_back(st);
+        }
+        if (is_sv)
+          on_sv[tau].push_back(t);
+      }
     }
     for (auto &p : on_sv)
     {
